@@ -215,10 +215,22 @@ func (c *Ctx) createdRecordNotLeftBehind(r *lockRoles, rule string) {
 					}
 				}
 			})
+			endedCtxDelete := false
 			q := ir.PathQuery{Fn: fn, From: in,
-				Stop: func(x ssa.Instruction) bool { return del.Is(x) || r.createLikeCallZA(x) != nil },
+				Stop: func(x ssa.Instruction) bool {
+					// a Delete issued right here is looked at in Target (under which context it runs: v_lock_g2.go)
+					return (del.Is(x) && r.storageCall(x, "Delete") == nil) || r.createLikeCallZA(x) != nil
+				},
 				Target: func(x ssa.Instruction, val *ir.Valuation) bool {
-					if !failsOnPathZA(fn, x, val) {
+					if dc := r.storageCall(x, "Delete"); dc != nil {
+						if r.underEndedContextVG(dc, val) {
+							endedCtxDelete = true
+						} else {
+							val.Mark("record deleted")
+						}
+						return false
+					}
+					if val.Marked("record deleted") || !failsOnPathZA(fn, x, val) {
 						return false
 					}
 					if isNil, known := val.KnownIsNil(ev); !known || !isNil {
@@ -233,8 +245,12 @@ func (c *Ctx) createdRecordNotLeftBehind(r *lockRoles, rule string) {
 					}
 					return true
 				}}
-			c.pathVerdict(rule, fn, construct, in, q,
-				"after a successful Storage.Create the attempt can still report failure without deleting the record it has just created: nobody holds the lock and no renewal is armed, but the record stays in the storage for a whole lease - other Lockers cannot acquire although every holder has unlocked")
+			what := "after a successful Storage.Create the attempt can still report failure without deleting the record it has just created: nobody holds the lock and no renewal is armed, but the record stays in the storage for a whole lease - other Lockers cannot acquire although every holder has unlocked"
+			if w, err := q.Find(); err == nil && w != nil && endedCtxDelete {
+				c.Decide(rule, fn, construct, in, false, what+" (the clean-up Delete on the way runs under a context the path has just found ended - ctx.Err() != nil: a storage that honours the context refuses the call; the clean-up has to use a context that is not the ended one, context.Background() / WithoutCancel / a fresh timeout): path "+w.String(c.P))
+				return
+			}
+			c.pathVerdict(rule, fn, construct, in, q, what)
 		})
 	}
 	if n == 0 {
